@@ -3,6 +3,9 @@
 
 pub mod c01;
 pub mod c02;
+pub mod c06;
+pub mod c19;
+pub mod enc;
 pub mod sch;
 
 use pzv_common::driver::{Ctx, install_panic_hook, read_replay};
@@ -20,6 +23,8 @@ fn main() {
         let code = match prop.as_str() {
             "C01" => c01::replay(&ctx, &sub, &case),
             "C02" => c02::replay(&ctx, &sub, &case),
+            "C06" => c06::replay(&ctx, &sub, &case),
+            "C19" => c19::replay(&ctx, &sub, &case),
             _ => {
                 eprintln!("harness error: pzv-scheme cannot replay property {prop}");
                 2
@@ -41,6 +46,14 @@ fn main() {
         "C02" => {
             c02::run_all(&ctx);
             ctx.finish(c02::RULE, &["operands are generated limb vectors, not encryptions: the property is linear algebra and needs no key", "programs keep digits below 2^61 (radix <= 40, <= 12 steps)"], &[("rank0_operand", 100), ("cross_radix", 100), ("program_len>=3", 100)])
+        }
+        "C06" => {
+            c06::run_all(&ctx);
+            ctx.finish(c06::RULE, &["thresholds are rigorous concentration bounds (Bernstein / Hoeffding, alpha = 2^-54 per test): detection power is limited to variance errors above roughly 10-30 % and per-bit biases above roughly 3 %", "public keys, LWE-related keys and the binary-FHE keys are built from the same internal routine (glwe_encrypt_sk_internal) and are not sampled separately here"], &[("variance_band_checked", 100), ("compressed", 100)])
+        }
+        "C19" => {
+            c19::run_all(&ctx);
+            ctx.finish(c19::RULE, &["the clear secret is read through hook H4", "LWE-related compressed keys and the blind-rotation key are wrappers over the GLWE switching key / GGSW forms covered here"], &[("multi_cell", 100), ("via_serialisation", 100), ("rank>=2", 100)])
         }
         _ => {
             eprintln!("harness error: unknown property {prop}");
